@@ -191,6 +191,21 @@ func main() {
 		})
 		time.Sleep(5 * time.Millisecond)
 	})
+	// membership churn: a transient node joins the cluster, stays a while and leaves gracefully (join, pending
+	// promotion, leave and the corresponding watcher callbacks under load on the permanent nodes)
+	var churn atomic.Int64
+	worker(7, func(r *rand.Rand) {
+		id := fmt.Sprintf("z%d", churn.Add(1))
+		var t *psim.Node
+		guarded("transient node "+id+" start", func() {
+			t, _ = psim.StartNode(psim.NodeOpts{ID: id, Join: []string{nodes[r.Intn(len(nodes))].GossipAddr()}})
+		})
+		if t == nil {
+			return
+		}
+		time.Sleep(time.Duration(150+r.Intn(350)) * time.Millisecond)
+		guarded("transient node "+id+" stop", func() { t.Stop() })
+	})
 	time.Sleep(time.Duration(sf.Seconds) * time.Second)
 	close(stop)
 	wg.Wait()
@@ -228,8 +243,9 @@ func main() {
 		_ = os.WriteFile(sf.PathsTo, b, 0o644)
 	}
 	if *statsPath != "" {
+		events, gateHits, matched := vtrace.Stats()
 		b, _ := json.Marshal(map[string]interface{}{"steps": 1 + len(nodes), "behaviours": 1, "operations": ops.Load(),
-			"lock_events": vtrace.Events, "distinct_lock_paths": len(paths), "gate_hits": vtrace.GateHits,
+			"lock_events": events, "distinct_lock_paths": len(paths), "gate_hits": gateHits, "gate_matched": matched,
 			"by_op": map[string]int{"Reset": 1, "Quiet": len(nodes)}})
 		_ = os.WriteFile(*statsPath, b, 0o644)
 	}
